@@ -312,14 +312,27 @@ theorem C05_trigger_calls_are_trigRun (cfg : Cfg) (trigs : List Trig) (sc : Scri
 /-- **C05 — `is_open` is true exactly on the market's own timestamps** (its data index, resampled like every frame when the
     interval is not one minute): the flag every refresh reports, and the flag that gates operations and open callbacks. -/
 theorem C05_is_open_iff_own_timestamp (cfg : Cfg) (mc : MarketCfg) (ts : Int) :
-    marketOpen cfg mc ts = true ↔ ts ∈ frameIdx cfg.resample cfg.Δ mc.idx := by
+    marketOpen cfg mc ts = true ↔ ts ∈ marketIdx cfg.resample mc.sparse cfg.Δ mc.idx := by
   simp [marketOpen]
+
+/-- a market whose `_resample` keeps every bin (every market but the option book) is open on every bar from its first to its last row -/
+theorem C05_is_open_dense (cfg : Cfg) (mc : MarketCfg) (ts : Int) (hd : mc.sparse = false) :
+    marketOpen cfg mc ts = true ↔ ts ∈ frameIdx cfg.resample cfg.Δ mc.idx := by
+  simp [marketOpen, marketIdx, hd]
+
+/-- a market whose `_resample` drops the empty bins (the option book) is open on a bar of a resampled run exactly when the bar is a bin
+    label of its frame and one of its rows falls into `[ts, ts + Δ)`: a hole covering a whole bar leaves the market closed there — the bar
+    itself is still a bar of the run (`C05_each_bar_once…` do not depend on any market being open) -/
+theorem C05_is_open_sparse (cfg : Cfg) (mc : MarketCfg) (ts : Int) (hs : mc.sparse = true) (hr : cfg.resample = true) :
+    marketOpen cfg mc ts = true ↔
+      ts ∈ resampleIdx cfg.Δ mc.idx ∧ ∃ t ∈ mc.idx, ts ≤ t ∧ t < ts + cfg.Δ := by
+  simp [marketOpen, marketIdx, sparseIdx, hs, hr]
 
 /-- an hourly market in a minutely run is open exactly on the whole hours it has data for -/
 theorem C05_hourly_market_open_on_whole_hours (cfg : Cfg) (mc : MarketCfg) (ts : Int) (hraw : cfg.resample = false)
     (hhour : ∀ t ∈ mc.idx, t % 3600 = 0) :
     (marketOpen cfg mc ts = true ↔ ts ∈ mc.idx) ∧ (marketOpen cfg mc ts = true → ts % 3600 = 0) := by
-  have e : marketOpen cfg mc ts = true ↔ ts ∈ mc.idx := by simp [marketOpen, frameIdx, hraw]
+  have e : marketOpen cfg mc ts = true ↔ ts ∈ mc.idx := by simp [marketOpen, marketIdx, frameIdx, hraw]
   exact ⟨e, fun h => hhour ts (e.mp h)⟩
 
 /-- **C05 — operations are gated by `is_open`.**  In every run that ends normally, for every event of the trace at a bar
@@ -536,7 +549,7 @@ theorem C05_run_ends_normally_iff (cfg : Cfg) (trigs : List Trig) (sc : Script) 
 /-! ### non-vacuity: a concrete run (a minutely and an hourly market, raw 1-minute bars from 08:58) -/
 
 def Core.exCfg : Cfg :=
-  { markets := [⟨[32280, 32340, 32400, 32460], true⟩, ⟨[32400], false⟩], priceIdx := [32280, 32340, 32400, 32460], Δ := 60, resample := false }
+  { markets := [{ idx := [32280, 32340, 32400, 32460], openCb := true }, { idx := [32400], openCb := false }], priceIdx := [32280, 32340, 32400, 32460], Δ := 60, resample := false }
 
 def Core.exScript : Script :=
   { init := [⟨0, true, "i", true⟩], before := fun _ => [], fire := fun _ _ => [⟨1, true, "f", true⟩], openCb := fun _ _ => [],
@@ -572,7 +585,7 @@ example : (run Core.exCfg [] (Core.exNotifyScript 1)).err = some .diverges := by
 
 /-- two hours of an option book with five rows per hour and three minutes of a minutely market: ten rows against three, yet the bars are
     the three minutes (a choice by row count would run two hourly bars) -/
-example : barIndex { markets := [⟨[0, 0, 0, 0, 0, 3600, 3600, 3600, 3600, 3600], false⟩, ⟨[0, 60, 120], false⟩], priceIdx := [0, 60, 120],
+example : barIndex { markets := [{ idx := [0, 0, 0, 0, 0, 3600, 3600, 3600, 3600, 3600], openCb := false }, { idx := [0, 60, 120], openCb := false }], priceIdx := [0, 60, 120],
                      Δ := 60, resample := false } = [0, 60, 120] := by decide
 
 end Demeter
